@@ -48,6 +48,22 @@ JudgeRT(rec) ==
           <<rec.unmarshal_ok => (rec.redecode_ok /\ SameValue(desc, rec.redecoded, val)),
             "unmarshalling the same text again into the struct that already holds the value does not reproduce the value">> >>)
 
+\* one receiver, two documents: a field the second text carries holds the second value; a field it does not
+\* carry (optional and empty) holds the first value or the empty one, nothing else
+JudgeRT2(rec) ==
+    LET desc == Table(rec.in.type)
+        A == rec.in.first  B == rec.in.second
+        InText(d) == d.required \/ FieldText(d, B[d.name]) # <<>>
+        fields == {k \in 1..Len(desc) : desc[k].kind # "raw" /\ desc[k].key # "-"}
+    IN Checks("reused-receiver",
+       << <<~rec.panic, "decoding a second document into the same struct panicked">>,
+          <<rec.ok, "Marshal/Unmarshal failed on a supported type (second document into the same struct)">>,
+          <<rec.ok => \A k \in fields : InText(desc[k]) => SameField(desc[k], rec.decoded[desc[k].name], B[desc[k].name]),
+            "a field present in the second document does not hold the second document's value after decoding into a struct that held another value">>,
+          <<rec.ok => \A k \in fields : ~InText(desc[k]) =>
+                (SameField(desc[k], rec.decoded[desc[k].name], B[desc[k].name]) \/ SameField(desc[k], rec.decoded[desc[k].name], A[desc[k].name])),
+            "a field absent from the second document holds neither the earlier nor the empty value">> >>)
+
 JudgePass(rec) ==
     LET desc == Table("P5")
         r == RefRead(rec.in.doc)
@@ -68,6 +84,7 @@ JudgeMissing(rec) ==
 Judge(rec) ==
     CASE rec.ev = "desc" -> JudgeDesc(rec)
       [] rec.ev = "rt" -> JudgeRT(rec)
+      [] rec.ev = "rt2" -> JudgeRT2(rec)
       [] rec.ev = "passthru" -> JudgePass(rec)
       [] rec.ev = "missing" -> JudgeMissing(rec)
       [] OTHER -> V(FALSE, "unknown-event", "unknown event")
